@@ -109,7 +109,7 @@ type delivery struct {
 func deliver(r *core.Run, a, f *Party, base *Issued) delivery {
 	d := delivery{base: base}
 	cur := a.Current()
-	switch k := r.Intn(17, "channel-op"); k {
+	switch k := r.Intn(18, "channel-op"); k {
 	case 0, 1:
 		d.bytes, d.op, d.genuine = base.Bytes, "genuine", true
 	case 2:
@@ -205,6 +205,29 @@ func deliver(r *core.Run, a, f *Party, base *Issued) delivery {
 		sig := [][]byte{nil, {}, bytes.Repeat([]byte{0x42}, 256), base.Proto.Signature}[r.Intn(4, "nonrsa-signature")]
 		d.bytes, _ = proto.Marshal(&epb.VMLaunchEndorsement{SerializedUefiGolden: payload, Signature: sig})
 		d.op = "resign:root-issued-non-rsa-key-cert+arbitrary-signature"
+	case 17:
+		// an outsider's self-signed certificate that carries a critical extension no verifier knows:
+		// whatever a chain builder makes of that, it is not a chain to a trusted root
+		ok := AttackerKey(a, 1)
+		tpl := &x509.Certificate{SerialNumber: big.NewInt(93), Subject: pkix.Name{CommonName: "outsider"}, NotBefore: base.Cert.NotBefore, NotAfter: base.Cert.NotAfter,
+			KeyUsage: x509.KeyUsageDigitalSignature, SignatureAlgorithm: x509.SHA256WithRSAPSS, BasicConstraintsValid: true,
+			ExtraExtensions: []pkix.Extension{{Id: []int{1, 3, 6, 1, 4, 1, 99999, 1}, Critical: true, Value: []byte{5, 0}}}}
+		if r.Bool("critical-extension-issued-by-root") {
+			// ... or one the right root really issued, with the same unknown critical extension
+			if der, err := x509.CreateCertificate(core.NewDetReader(8), tpl, a.Root, &ok.PublicKey, a.RootKey); err == nil {
+				if c, err := x509.ParseCertificate(der); err == nil {
+					d.bytes, d.op = Reassemble(base.Golden, c, ok, 0), "resign:root-issued-cert-with-unknown-critical-extension"
+					break
+				}
+			}
+		}
+		der, err := x509.CreateCertificate(core.NewDetReader(9), tpl, tpl, &ok.PublicKey, ok)
+		if err != nil {
+			d.bytes, d.op, d.genuine = base.Bytes, "genuine", true
+			break
+		}
+		c, _ := x509.ParseCertificate(der)
+		d.bytes, d.op = Reassemble(base.Golden, c, ok, 0), "resign:self-signed-cert-with-unknown-critical-extension"
 	case 16:
 		// the forger runs a CA of its own and names it in the endorsement's ca_bundle next to the
 		// genuine root (in either order, or alone): the bundle is the sender's say-so, only the
